@@ -34,6 +34,47 @@ CORRUPT_INIT = ["(zz o1)", "(p)", "(p o1 o2)", "(p nobody)", "(s o1)", "(= (zz o
 CORRUPT_GOAL = ["(zz o1)", "(p o1 o2)", "(p nobody)", "(s o1)", "(>= (zz) 1)", "(>= (f o1 o2) 1)"]
 
 
+def random_problems(rnd, n):
+    """random well-typed problems over the generator domain: random subsets of facts, fluents with random values (negative, fractional,
+    many digits, exponent notation), random goals"""
+    objs = "o1 o3 - a o2 o4 - b"
+    A, Bs = ["o1", "o3", "k"], ["o2", "o4"]
+    allo = A + Bs
+    for _ in range(n):
+        init, goal = [], []
+        for a in allo:
+            if rnd.random() < 0.4:
+                init.append(f"(p {a})")
+            if rnd.random() < 0.3:
+                init.append(f"(q {a})")
+            if rnd.random() < 0.3:
+                v = rnd.choice([rnd.randint(-50, 50), round(rnd.uniform(-1000, 1000), rnd.randint(1, 9)), rnd.choice(["1e3", "-2.5e-3", "0.0", "7."])])
+                init.append(f"(= (f {a}) {v})")
+        for a in allo:
+            for b in allo:
+                if rnd.random() < 0.12:
+                    init.append(f"(r {a} {b})")
+                if rnd.random() < 0.08:
+                    init.append(f"(= (d {a} {b}) {round(rnd.uniform(-9, 9), rnd.randint(0, 6))})")
+        for b in Bs:
+            if rnd.random() < 0.4:
+                init.append(f"(s {b})")
+        if rnd.random() < 0.5:
+            init.append("(g)")
+        if rnd.random() < 0.6:
+            init.append(f"(= (c) {rnd.choice([0, 1, -3, 2.75, 123456.789])})")
+        for x, y, z in [(rnd.choice(A), rnd.choice(A), rnd.choice(Bs)) for _ in range(rnd.randint(0, 2))]:
+            init.append(f"(bt {x} {y} {z})")
+            if rnd.random() < 0.5:
+                init.append(f"(= (ft {x} {y} {z}) {rnd.randint(-5, 5)})")
+        for _ in range(rnd.randint(0, 3)):
+            goal.append(rnd.choice([f"(p {rnd.choice(allo)})", f"(r {rnd.choice(allo)} {rnd.choice(allo)})", "(g)", f"(>= (f {rnd.choice(allo)}) {rnd.randint(-3, 3)})",
+                                    f"(< (d {rnd.choice(allo)} {rnd.choice(allo)}) (c))", f"(= (c) {rnd.choice([0, 2.5])})"]))
+        init = list(dict.fromkeys(init))
+        goal = list(dict.fromkeys(goal))
+        yield _problem_text(objs, init, goal)
+
+
 def _problem_text(objs, init, goal, domain_name="gen", goal_wrap=True):
     g = f"(and {' '.join(goal)})" if goal_wrap else " ".join(goal)
     return f"(define (problem prob1) (:domain {domain_name})\n (:objects {objs})\n (:init {' '.join(init)})\n (:goal {g}))"
@@ -47,7 +88,7 @@ class ProblemFidelity(Harness):
                  "ProblemParser.parse_grounded_predicate", "ProblemParser.parse_grounded_numeric_fluent", "ProblemParser._validate_object_types",
                  "ProblemParser.parse_goal_state", "ProblemParser.parse_domain_name")
     bound = {"quick": "8 object-list shapes (typed, grouped, trailing untyped, wholly untyped, empty, private sublist) x 10 init lists x 7 goal lists (type-incompatible combinations become rejection cases); 13 init and 6 goal single-point corruptions on 2 object lists; wrong domain name",
-             "thorough": "same"}
+             "thorough": "same plus 1,500 seeded random problems (random fact subsets, fluent values, goals)"}
     rule = "cartesian product of the listed shapes; non-trivial = at least one init or goal component; distinct by text"
 
     def inputs(self, tier, seed):
@@ -61,6 +102,9 @@ class ProblemFidelity(Harness):
         yield {"text": _problem_text(OBJECT_LISTS[0], ["(p o1)"], ["(p o1)"], domain_name="other")}
         yield {"text": _problem_text("o1 - zz", [], [])}
         yield {"text": _problem_text(OBJECT_LISTS[0], ["(p o1)"], ["(p o1)"], goal_wrap=False)}
+        if tier == "thorough":
+            for t in random_problems(random.Random(seed + 5), 1500):
+                yield {"text": t}
 
     def nontrivial_key(self, inp):
         return inp["text"] if "(p " in inp["text"] or "(= " in inp["text"] else None
